@@ -421,6 +421,10 @@ func verifAtoi(s string) int {
 }
 
 func VerifSetup_groups() {
+	verifSpec = nil
+	if a := verifParam("ast"); a != "" {
+		verifSpec = verifParseSpec(a)
+	}
 	verifREs = nil
 	verifREs = append(verifREs, verifCompile(verifParam("pattern"), verifParamInt("options"), verifParam("copts")))
 	if p := verifParam("pattern_byname"); p != "" {
@@ -480,6 +484,16 @@ func VerifCheck_groups() {
 	m, err := re.FindRunesMatch(t)
 	if err != nil {
 		verifFail("error", err.Error())
+	}
+	if verifSpec != nil {
+		// which text every group captured: the reference matcher on the independent parse, its groups
+		// numbered by the documented rule
+		got := verifSnap(m)
+		want := verifSpecFindNums(verifSpec, nums[1:], t, 0, false)
+		verifNoteInts("engine", got)
+		verifNoteInts("spec", want)
+		verifAssert("captures==spec", verifEqInts(got, want))
+		verifReach("spec-leg")
 	}
 	if m != nil {
 		verifReach("match")
